@@ -207,6 +207,8 @@ def run_e1(case, scratch_root, props, inject=None):
             ctl = Controller(pr, random.Random(inv.get("seed", 0)), case.get("e1_policy", "random-some"), inject)
             ctl.pos = pr._pos
             kw["poll"] = ctl.poll
+            if inv.get("unrelated"):
+                kw["prefork"] = [(random.Random(inv.get("seed", 0) + i).randint(20, 400), (u.get("exit", 0) if "exit" in u else 9)) for i, u in enumerate(inv["unrelated"])]
         r = pr.cond(argv, timeout=inv.get("timeout", 60), **kw)
         evs = pr.events(new_only=True)
         executed, cached = sched.plan_model(tb, inv["target"], rows_before if isinstance(rows_before, list) else [], inv.get("again", False))
